@@ -2,8 +2,11 @@
    The table is data read from the implementation at run time and judged by enumeration (verified closure) for
    3 <= n <= 8; classifier-vs-table up to n = 16.  Proved here: the three table entries that are wrong at n = 3
    (refutation by computation), and for every n the families over {I, X} (a0, b0, b1) generate exactly their own
-   translates.  "For every n" for the other families is the two-local classification (Wiersema et al.): not proved. *)
-From PauLie Require Import Pauli InvarT Parser ParserT ClosureN Star TwoLocalT.
+   translates; and for every n >= 4 (a12, a17) resp. n >= 3 (a18, a19, a21, a22) the families the table lists as
+   su(2^n) generate exactly the 4^n - 1 non-identity strings, i.e. su(2^n) itself (one more qubit at a time from a
+   computed base case, Theory/TwoLocalFullT.v).  "For every n" for the remaining families is the two-local
+   classification (Wiersema et al.): not proved. *)
+From PauLie Require Import Pauli InvarT Parser ParserT ClosureN Star TwoLocalT ExtendT Families TwoLocalFullT.
 
 Definition translates3 (gens : list pstr) : list pstr := match k_local_generators 3 gens with Ok l => l | ValueError => [] end.
 Theorem C19_refuted_n3 :
@@ -18,6 +21,27 @@ Theorem C19_IX_families : forall n gens out, (forall g, In g gens -> forallb isI
   forall p, ClL (fun g => In g out) p <-> In p out.
 Proof. exact IX_family_closure. Qed.
 Print Assumptions C19_IX_families.
+
+(* the six families the table lists as su(2^n): for EVERY n from the stated bound on, the commutator closure of the
+   translates is exactly the set of non-identity strings of length n (a12 and a17 are NOT su(8) at n = 3, see above) *)
+Theorem C19_su_families :
+  (forall n out, (4 <= n)%nat -> k_local_generators n fam_a12 = Ok out -> forall p, ClL (fun g => In g out) p <-> (length p = n /\ p <> identity n)) /\
+  (forall n out, (4 <= n)%nat -> k_local_generators n fam_a17 = Ok out -> forall p, ClL (fun g => In g out) p <-> (length p = n /\ p <> identity n)) /\
+  (forall n out, (3 <= n)%nat -> k_local_generators n fam_a18 = Ok out -> forall p, ClL (fun g => In g out) p <-> (length p = n /\ p <> identity n)) /\
+  (forall n out, (3 <= n)%nat -> k_local_generators n fam_a19 = Ok out -> forall p, ClL (fun g => In g out) p <-> (length p = n /\ p <> identity n)) /\
+  (forall n out, (3 <= n)%nat -> k_local_generators n fam_a21 = Ok out -> forall p, ClL (fun g => In g out) p <-> (length p = n /\ p <> identity n)) /\
+  (forall n out, (3 <= n)%nat -> k_local_generators n fam_a22 = Ok out -> forall p, ClL (fun g => In g out) p <-> (length p = n /\ p <> identity n)).
+Proof. exact (conj a12_su (conj a17_su (conj a18_su (conj a19_su (conj a21_su a22_su))))). Qed.
+Print Assumptions C19_su_families.
+(* the general step: any family of two-letter generators containing [a1;l1], [a2;l2] with a1, a2, l1, l2 non-identity
+   and l1 <> l2 that generates everything at some n0 >= 2 generates everything at every n >= n0 *)
+Theorem C19_full_from : forall gens a1 l1 a2 l2 n0, (forall g, In g gens -> length g = 2%nat /\ g <> identity 2) ->
+  In [a1; l1] gens -> In [a2; l2] gens -> a1 <> PI -> a2 <> PI -> l1 <> PI -> l2 <> PI -> l1 <> l2 ->
+  (2 <= n0)%nat -> full_check n0 gens = true ->
+  forall n out, (n0 <= n)%nat -> k_local_generators n gens = Ok out ->
+  forall p, ClL (fun g => In g out) p <-> (length p = n /\ p <> identity n).
+Proof. exact family_su. Qed.
+Print Assumptions C19_full_from.
 
 Example C19_example : translates3 [[PX;PX]] = [[PX;PX;PI]; [PI;PX;PX]] /\ closure_card 3 (translates3 [[PX;PX]]) = Some 2%nat.
 Proof. vm_compute. split; reflexivity. Qed.
